@@ -1,7 +1,7 @@
 #!/bin/sh
 # tools/try_mutation.sh <patch.diff> <Cxx> [tier]: apply a patch to /repo, run the check, undo the patch.
 set -u
-patch="$1"; prop="$2"; tier="${3:-quick}"
+patch="$(realpath "$1")"; prop="$2"; tier="${3:-quick}"
 cd /repo || exit 2
 git diff --quiet || { echo "/repo working tree is not clean"; exit 2; }
 git apply "$patch" || { echo "patch does not apply"; exit 2; }
